@@ -118,11 +118,19 @@ func (w *World) kbUpdate(o *Obs) {
 			to = "maybe"
 		}
 		w.supersede("sms", -1, st.B, to)
+		// whose code: the account the message was sent for - the login this
+		// response parked, else the session's user (enrolment, resend), else
+		// the login already parked in the session (resend on the validate page)
 		owner := -1
-		for _, ac := range w.Accts {
-			if num := kb.SMSNumber[ac.N]; num == s.Number && num != "" {
-				owner = ac.N
-			}
+		forPID, _ := o.sessPut("sms_pending")
+		if forPID == "" {
+			forPID = o.uidBefore()
+		}
+		if forPID == "" {
+			forPID = o.SessBefore["sms_pending"]
+		}
+		if forPID != "" {
+			owner = w.acctByPID(forPID)
 		}
 		kb.addSecret(&Secret{Kind: "sms", Acct: owner, Browser: st.B, Value: s.Code, Number: s.Number, Issued: s.At})
 	}
